@@ -75,7 +75,10 @@ InContext(c, v) == CASE c = 1 -> v \o <<97, 97, 97>>
                      [] c = 3 -> <<222>> \o Ones(2) \o <<132>> \o v \o <<97, 97, 97>>  \* inside a struct, field name $4
                      [] c = 4 -> <<238>> \o Ones(2) \o <<129, 132>> \o v \o <<97, 97>> \* inside an annotation wrapper
                      [] c = 5 -> <<180>> \o v \o <<97, 97, 97>>                        \* inside a list of 4 bytes
-DeclaredLengths == Cat(Cat([T1 \in 1..16 |-> [s \in 1..Len(LengthShapes) |-> [c \in 1..5 |->
+                     [] c = 6 -> <<190>> \o Ones(5) \o v \o <<97, 97, 97>>             \* inside a list declaring 2^35 - 1 bytes
+                     [] c = 7 -> <<190>> \o Ones(9) \o v \o <<97, 97, 97>>             \* inside a list declaring 2^63 - 1 bytes
+                     [] c = 8 -> <<222>> \o Ones(5) \o <<132>> \o v \o <<97, 97>>      \* inside a struct declaring 2^35 - 1 bytes
+DeclaredLengths == Cat(Cat([T1 \in 1..16 |-> [s \in 1..Len(LengthShapes) |-> [c \in 1..8 |->
                       Case("binary: declared length", "binary", c = 1 /\ s \in {1, 5, 9, 10, 32, 34}, BVM \o InContext(c, HV(T1 - 1, LengthShapes[s])))]]]))
 
 \* a binary local symbol table with a hole
